@@ -236,6 +236,13 @@ func init() {
 						pc.StallMs = 65000
 					}
 				}
+				if c.Idx == 1 { // one long stream per run with a target that lags far behind and then catches up
+					pc.NFeatures, pc.RealSnap, pc.BigMulti, pc.Plan, pc.LagMs = 150000, false, false, "fast", 1500
+					if c.Tier == "thorough" {
+						pc.NFeatures = 600000
+					}
+					c.Rec.Count("long_stream_with_lagging_target(150k+ features)")
+				}
 				judgePipe(c, pc, prop)
 			},
 			Replay: func(c *fw.Ctx, raw json.RawMessage) {
@@ -255,7 +262,7 @@ func init() {
 		if prop == "C10" {
 			p.Rule = "processing.ProcessFeatures driven with a fake source (0-200 features: Point/LineString/MultiPoint/nil/Polygon/MultiPolygon, unique ids) and 1-5 (1 in 25 cases: 6-48) fake targets under 6 speed plans, one long-running table per run (the source stalls for 12 s, thorough 65 s) and GOMAXPROCS 1/2/4/16; polygon function = deterministic drop/keep-1/split-k per (feature, part, tile matrix), 10 % of the runs the real SnapPolygon; offline checker over what each target's channel delivered against the sequential model: exactly-once, no foreign feature, source order, geometry equality (Polygon vs MultiPolygon merge), TileMatrixID = target id, Columns() = the source feature's own slice; non-trivial = >= 2 targets and >= 3 expected deliveries; thorough tier runs under the race detector"
 			p.Required = func(string) []string {
-				return []string{"plan:slow-reader", "plan:slow-f", "plan:one-slow-target", "gomaxprocs:1", "gomaxprocs:16", "stream:empty", "stream:200", "real_SnapPolygon", "target_that_receives_nothing", "targets:1", "targets:5", "targets:6-48", "long_running_table(source stalls >= 12 s)"}
+				return []string{"plan:slow-reader", "plan:slow-f", "plan:one-slow-target", "gomaxprocs:1", "gomaxprocs:16", "stream:empty", "stream:200", "real_SnapPolygon", "target_that_receives_nothing", "targets:1", "targets:5", "targets:6-48", "long_running_table(source stalls >= 12 s)", "long_stream_with_lagging_target(150k+ features)"}
 			}
 			p.Assumptions = []string{"schedules are sampled (delays at every stage boundary x GOMAXPROCS), not enumerated", "the polygon function never returns an empty list for a key (C05's contract)"}
 			p.Technique = "runtime monitor: offline history checker (unique ids, sequential model) over fake targets' event logs"
@@ -263,7 +270,7 @@ func init() {
 			p.FatalIsViolation = true
 			p.Rule = "same pipelines as C10, every run under the Go race detector; observed: return of ProcessFeatures (a total deadlock is reported by the Go runtime and kills the worker = violation), per-target done flag set after a slow final flush, loss/duplication/reordering from the event log, goroutines with a texel frame still parked after return (state-based, not time-based), race reports with a texel frame (from the pipelines and from runs of the race-built real binary on generated multi-table GeoPackages, where main re-assigns target.Table right after return); non-trivial = >= 2 targets and >= 3 expected deliveries; distinct interleaving signatures are counted"
 			p.Required = func(string) []string {
-				return []string{"plan:slow-reader", "plan:slow-f", "plan:one-slow-target", "plan:all-slow-flush", "gomaxprocs:1", "gomaxprocs:16", "stream:empty", "stream:200", "goroutine_checks", "finished_last:target-flush", "targets:6-48", "long_running_table(source stalls >= 12 s)"}
+				return []string{"plan:slow-reader", "plan:slow-f", "plan:one-slow-target", "plan:all-slow-flush", "gomaxprocs:1", "gomaxprocs:16", "stream:empty", "stream:200", "goroutine_checks", "finished_last:target-flush", "targets:6-48", "long_running_table(source stalls >= 12 s)", "long_stream_with_lagging_target(150k+ features)"}
 			}
 			p.Assumptions = []string{"'always returns' = returned on every schedule produced; a wall-clock watchdog only makes the run inconclusive", "schedules are sampled, not enumerated; distinct interleaving signatures are reported"}
 			p.Technique = "Go race detector + runtime monitor of completion order, goroutine leaks and runtime deadlock detection"
